@@ -5,7 +5,8 @@ from tools.vlib import *
 HEADER = """From Coq Require Import ZArith NArith List Bool Floats String.
 From CE Require Import Num NumFloat NumFloat64 Peak PeakCheck ConvCheck.
 Import ListNotations. Open Scope float_scope. Open Scope string_scope."""
-THEOREMS = ["C11_threshold_zero", "C11_multiset", "C11_survivors", "C11_no_junk", "C11_tail"]
+THEOREMS = ["C11_threshold_zero", "C11_multiset", "C11_survivors", "C11_no_junk", "C11_tail", "C11_output_sorted", "C11_output_sum",
+            "C11_output_above", "C11_nonvacuous"]
 
 
 def peaks_term(o):
@@ -39,6 +40,7 @@ EVALS = ["cids_where (fun c => negb (c_tie f_same c)) cases", "cids_where (fun c
 
 def run(run, args):
     n, maxl, maxarr = (150, 200, 2500) if run.tier == "quick" else (700, 600, 30000)
+    n *= run.scale
     prepare(run)
     rc, out, err, dt = run_harness(["conv", run.seed, n, maxl, maxarr], timeout=1200)
     if rc != 0:
